@@ -5,6 +5,7 @@ import (
 	"encoding/json"
 	"fmt"
 	"net/textproto"
+	"os"
 	"reflect"
 	"regexp"
 	"strings"
@@ -109,6 +110,7 @@ type evalReq struct {
 	extraTargets  int    // additional repeats of an accepted (type, input) into fresh targets
 	wantDump      bool   // the caller compares results: evalOne returns the dump of an accepted target
 	history       string // what ran before, for witnesses
+	memoAlways    bool   // the evaluation is always repeated at the end of the case (cold vs. warm), not only every 41st
 }
 
 // evalRes is what evalOne saw.
@@ -181,14 +183,14 @@ func (h *harness) evalOne(c *kit.Case, q *evalReq) *evalRes {
 		if q.wantDump {
 			res.dump = strings.Join(dumpTop(target.Elem()), " | ")
 		}
-		if (h.ordinal+c.Index)%memoEvery == 0 {
+		if q.memoAlways || (h.ordinal+c.Index)%memoEvery == 0 {
 			h.remember(q, docText, true, target)
 		}
 		// the caller overwrites its result; the same input must give the same result again
 		h.afterAccept(c, q, target, docText)
 	default:
 		kit.Obs("rejected", 1)
-		if (h.ordinal+c.Index)%memoEvery == 0 {
+		if q.memoAlways || (h.ordinal+c.Index)%memoEvery == 0 {
 			if docText == "" {
 				docText = q.doc()
 			}
@@ -211,6 +213,14 @@ func (h *harness) evalOne(c *kit.Case, q *evalReq) *evalRes {
 	kit.Obs("ref_defaults_expected", int64(ref.nDefault))
 	kit.Obs("ref_required_missing", int64(ref.nRequiredMissing))
 	kit.Obs("ref_supplied_fields", int64(ref.nSupplied))
+	if ref.nNullRequired+ref.nNullOptional+ref.nNullSilent > 0 {
+		kit.Obs("ref_null_for_scalar_required_in_context", int64(ref.nNullRequired))
+		kit.Obs("ref_null_for_optional_scalar", int64(ref.nNullOptional))
+		kit.Obs("ref_null_statement_silent", int64(ref.nNullSilent))
+		if err == nil && pan == nil && ref.nNullOptional > 0 && len(ref.must) == 0 {
+			kit.Obs("null_for_optional_scalar_accepted_and_target_compared", 1)
+		}
+	}
 	verdict := "rej"
 	if err == nil && pan == nil {
 		verdict = "acc"
@@ -1042,22 +1052,36 @@ func TestVerifC08(t *testing.T) {
 	logx.Disable()
 	h := &harness{fc: newFence()}
 	defer h.fc.close()
-	h.runExhaustive(t)
-	h.runShapes(t)
-	h.runIsolation(t)
-	h.runXum(t, kit.N(320, 6000))
-	h.runHandWritten(t, kit.N(900, 10000))
-	h.runRandom(t, kit.N(10000, 250000))
-	h.runHTTP(t, kit.N(4000, 60000))
-	h.runDamaged(t, kit.N(2500, 30000))
-	h.runNumShapes(t)
-	h.runSepVals(t)
-	h.runInherit(t, kit.N(1500, 30000))
-	h.runHTTPWire(t, kit.N(2500, 40000))
-	h.runConfLoad(t, kit.N(1200, 20000))
-	h.runBadTags(t)
-	h.runDamagedEntries(t, kit.N(1400, 20000))
-	h.runTopLevel(t, kit.N(900, 15000))
+	// debugging aid (never set by the driver): C08_FAMILIES=nulls,reparse runs only these groups
+	only := map[string]bool{}
+	for _, f := range strings.Split(os.Getenv("C08_FAMILIES"), ",") {
+		if f != "" {
+			only[f] = true
+		}
+	}
+	group := func(name string, fn func()) {
+		if len(only) == 0 || only[name] {
+			fn()
+		}
+	}
+	group("exh", func() { h.runExhaustive(t) })
+	group("shapes", func() { h.runShapes(t) })
+	group("isolation", func() { h.runIsolation(t) })
+	group("xum", func() { h.runXum(t, kit.N(320, 6000)) })
+	group("handwritten", func() { h.runHandWritten(t, kit.N(900, 10000)) })
+	group("random", func() { h.runRandom(t, kit.N(10000, 250000)) })
+	group("http", func() { h.runHTTP(t, kit.N(4000, 60000)) })
+	group("damaged", func() { h.runDamaged(t, kit.N(2500, 30000)) })
+	group("numshapes", func() { h.runNumShapes(t) })
+	group("sepvals", func() { h.runSepVals(t) })
+	group("inherit", func() { h.runInherit(t, kit.N(1500, 30000)) })
+	group("httpwire", func() { h.runHTTPWire(t, kit.N(2500, 40000)) })
+	group("confload", func() { h.runConfLoad(t, kit.N(1200, 20000)) })
+	group("badtags", func() { h.runBadTags(t) })
+	group("damaged-entries", func() { h.runDamagedEntries(t, kit.N(1400, 20000)) })
+	group("toplevel", func() { h.runTopLevel(t, kit.N(900, 15000)) })
+	group("nulls", func() { h.runNulls(t); h.runNullsComposite(t) })
+	group("reparse", func() { h.runReparse(t, kit.N(1200, 24000)) })
 	kit.Obs("inputs_written_to_disk_before_the_call", h.fc.writes)
 	kit.End()
 }
